@@ -94,6 +94,9 @@ def main() -> int:
     drv = common.Driver()
     proofs_ok = ok and not bad_axioms and not forbidden
     budget_tier = tier if proofs_ok else "thorough"  # failing-input search gets the thorough budget
+    if spec.get("wire_corpus", False):
+        from . import corpus, gen
+        gen.SchemaGen.corpus_queue = corpus.corpus_schemas()
     try:
         spec["explore"](run, drv, rng, budget_tier)
     except common.StopExploration:
